@@ -399,8 +399,9 @@ pub fn codec_families(seed: u64, thorough: bool, out: &mut Shards) {
     }
     // (8) compress at other sizes than the production ones, at the budget edge (a fast path for n in {512, 1024} next to a generic
     // path), and judged compress calls in the order 1024 -> 512 -> 8 -> 1024 (state sized by the first call)
-    for &n in &[4usize, 7, 8, 64, 100, 256, 2048] {
-        if !thorough && (n == 7 || n == 100) {
+    // (sizes whose encodings pass 2^16 bits included: a bit cursor kept in 16 bits)
+    for &n in &[4usize, 7, 8, 64, 100, 256, 2048, 7281, 7282, 8000, 16384] {
+        if !thorough && (n == 7 || n == 100 || n == 7281 || n == 16384) {
             continue;
         }
         let l = (9 * n + 7) / 8 + 2 + n / 16;
@@ -415,6 +416,16 @@ pub fn codec_families(seed: u64, thorough: bool, out: &mut Shards) {
                 out.emit(dec_event(&pack_coeffs(&v, l), n, "budget-edge-other-n-roundtrip"));
             }
         }
+    }
+    // few near-limit coefficients with a long encoding (about 100 bits each): 700 of them pass 2^16 bits
+    {
+        let n = 700usize;
+        let v: Vec<i16> = (0..n).map(|i| if i % 2 == 0 { 12159 - (i % 50) as i16 } else { -(12100 + (i % 59) as i16) }).collect();
+        let bits = total_bits(&v);
+        for l in [(bits + 7) / 8, (bits + 7) / 8 + 1, bits / 8 - 1] {
+            out.emit(comp_event(&v, l, "near-limit-long"));
+        }
+        out.emit(dec_event(&pack_coeffs(&v, (bits + 7) / 8 + 1), n, "near-limit-long-roundtrip"));
     }
     for &(n, l) in &[(1024usize, 1239usize), (512, 625), (8, 12), (1024, 1239), (512, 625)] {
         let v = gaussian_vec(&mut rng, n, 165.0);
